@@ -89,6 +89,8 @@ def run(ctx):
     sources = [(n, d, False) for n, d in fmt.fixtures()]
     cl = gen.classes()
     sources.append(("large", gen.large_project(rnd, spec).read(), False))        # scale
+    for nm, obj in gen.boundary_sources(spec):      # deterministic boundary values
+        sources.append((nm, obj.read(), False))
     for k in range(4 if q else 40):         # user-defined controllers over negative-minimum targets, and chained through nested MetaModules
         sources.append(("MetaModule-negmin%d" % k, api.Synth(gen.meta_negmin(rnd, spec)).read(), False))
         sources.append(("MetaModule-chain%d" % k, api.Synth(gen.chain_meta(rnd, spec)).read(), False))
